@@ -196,3 +196,289 @@ def parse_obs(line):
 
 def unhex(h):
     return b"" if h in ("-", None) else bytes.fromhex(h)
+
+
+# ------------------------------------------------------------------ batches, monitors, shrinking
+def header_lines(rows):
+    return [env_line(k, v) for k, v in SCHEMAS.items()] + table_lines(rows)
+
+
+def make_script(rows, histories):
+    """histories: list of (schema_id, [ops]); each runs in its own fresh session."""
+    lines = header_lines(rows)
+    index = []   # (history_no, op_no, op_text) per observation line
+    for h, (sid, ops) in enumerate(histories):
+        pre = ["new", "schema " + sid]
+        for j, op in enumerate(pre + list(ops) + ["destroy %d" % h]):
+            lines.append(op)
+            index.append((h, j - len(pre), op))
+    return "\n".join(lines) + "\n", index
+
+
+def run_both(c, exe, ws, script, tag="s"):
+    p = os.path.join(c.work, "%s.script" % tag)
+    with open(p, "w") as f:
+        f.write(script)
+    rc, out = run_impl(exe, ws, p)
+    impl = [l for l in out.splitlines() if l.startswith("ret=") or l == "bad-op"]
+    model = run_model(script).splitlines()
+    return rc, out, impl, model
+
+
+def is_boundary(b, p):
+    return p == len(b) or (p < len(b) and (b[p] & 0xC0) != 0x80)
+
+
+def wellformed(o):
+    """C02 on one observation (dict from parse_obs). Returns failing clause or None."""
+    if "nocontext" in o:
+        return None
+    inp = unhex(o.get("input"))
+    caret = int(o.get("caret", 0))
+    if caret > len(inp):
+        return "caret>input"
+    composing = o.get("composing") == "1"
+    pre = o.get("preedit")
+    if pre not in (None, "~"):
+        pb = unhex(pre)
+        ln, cur = int(o["len"]), int(o["cur"])
+        s, e = [int(x) for x in o["sel"].split(",")]
+        if ln != len(pb):
+            return "length!=bytes"
+        if not (0 <= s <= e <= ln):
+            return "sel-range"
+        if not (0 <= cur <= ln):
+            return "cursor-range"
+        try:
+            pb.decode("utf-8")
+            valid = True
+        except UnicodeDecodeError:
+            valid = False
+        if valid and not (is_boundary(pb, s) and is_boundary(pb, e) and is_boundary(pb, cur)):
+            return "utf8-boundary"
+    if not composing:
+        if inp or pre not in (None, "~") or o.get("menu") not in (None, "~"):
+            return "idle-not-empty"
+    m = o.get("menu")
+    if m not in (None, "~"):
+        ps, pn, last, hi, num = [int(x) for x in m.split(",[")[0].split(",")]
+        if num > 0 and not (0 <= hi < num <= ps):
+            return "highlight-range"
+        if num == 0:
+            return "empty-page"
+    return None
+
+
+def ddmin(ops, fails, budget=60):
+    """shrink an op list while fails(ops) stays true"""
+    n = 2
+    evals = 0
+    while len(ops) >= 2 and evals < budget:
+        chunk = max(1, len(ops) // n)
+        reduced = False
+        for i in range(0, len(ops), chunk):
+            cand = ops[:i] + ops[i + chunk:]
+            evals += 1
+            if cand and fails(cand):
+                ops, n, reduced = cand, max(n - 1, 2), True
+                break
+            if evals >= budget:
+                break
+        if not reduced:
+            if chunk == 1:
+                break
+            n = min(len(ops), n * 2)
+    return ops
+
+
+# ------------------------------------------------------------------ the generic session check
+# checks that report a crash of the harness as their own violation: C01 (no crash) and C02 (a call that
+# aborts reports no well-formed context); the others skip the crashing history and say so in the evidence
+CRASH_REPORTERS = ("C01", "C02")
+
+def op_kind(op):
+    w = op.split(" ")
+    if w[0] == "key":
+        code = int(w[1])
+        names = {v: k for k, v in XK.items()}
+        nm = names.get(code, "char" if 0x20 <= code < 0x7f else "other")
+        return "key:%s%s" % (nm, "" if w[2] == "0" else "+mod")
+    return w[0]
+
+
+def eval_history(c, exe, ws, rows, sid, ops, monitor, tag="h"):
+    """run one history on both sides; returns dict(rc, impl, model, first_diff, first_viol)"""
+    script, index = make_script(rows, [(sid, ops)])
+    rc, out, impl, model = run_both(c, exe, ws, script, tag)
+    res = {"rc": rc, "impl": impl, "model": model, "first_diff": None, "first_viol": None, "log": out[-2500:] if rc else ""}
+    state = {}
+    for i, (h, j, op) in enumerate(index):
+        if i >= len(impl):
+            break
+        o = parse_obs(impl[i])
+        if j >= 0 and res["first_viol"] is None:
+            why = monitor(state, op, o)
+            if why:
+                res["first_viol"] = (j, op, why, impl[i])
+        if i < len(model) and impl[i] != model[i] and res["first_diff"] is None:
+            res["first_diff"] = (j, op, impl[i], model[i])
+    return res
+
+
+def session_check(c, pid, monitor, histories, rows_for, exe, ws, what_prop):
+    """histories: list of (sid, ops, table_id); rows_for[table_id] = rows.
+    Runs them in batches per table, compares impl/model, monitors, shrinks, reports.  Returns stats."""
+    stats = {"histories": 0, "ops": 0, "diffs": 0, "violations": 0, "crashes": 0, "kinds": {}, "nontrivial": set(),
+             "samples": [], "menus": 0, "composing": 0, "commits": 0, "multi_segment": 0}
+    by_table = {}
+    for sid, ops, tid in histories:
+        by_table.setdefault(tid, []).append((sid, ops))
+    for tid, hs in by_table.items():
+        rows = rows_for[tid]
+        pending = list(hs)
+        attempts = 0
+        while pending and attempts < 6:
+            attempts += 1
+            script, index = make_script(rows, pending)
+            rc, out, impl, model = run_both(c, exe, ws, script, "b%s" % tid)
+            states = {}
+            bad_hist = {}
+            for i, (h, j, op) in enumerate(index):
+                if i >= len(impl):
+                    break
+                o = parse_obs(impl[i])
+                if j >= 0:
+                    stats["ops"] += 1
+                    k = op_kind(op)
+                    stats["kinds"][k] = stats["kinds"].get(k, 0) + 1
+                    if o.get("menu") not in (None, "~"):
+                        stats["menus"] += 1
+                    if o.get("composing") == "1":
+                        stats["composing"] += 1
+                        stats["nontrivial"].add((pending[h][0], impl[i]))
+                    if "text" in o:
+                        stats["commits"] += 1
+                    if len(stats["samples"]) < 4 and o.get("menu") not in (None, "~") and j > 5:
+                        stats["samples"].append({"schema": pending[h][0], "op": op, "observation": impl[i][:300]})
+                    why = monitor(states.setdefault(h, {}), op, o)
+                    if why and h not in bad_hist:
+                        bad_hist[h] = ("viol", j, op, why)
+                if i < len(model) and impl[i] != model[i] and h not in bad_hist:
+                    bad_hist[h] = ("diff", j, op, None)
+            crashed = None
+            if rc != 0:
+                # the history being executed when the process died
+                crashed = index[min(len(impl), len(index) - 1)][0]
+                stats["crashes"] += 1
+                if pid in CRASH_REPORTERS:
+                    sid, ops = pending[crashed]
+                    j = index[min(len(impl), len(index) - 1)][1]
+                    report_crash(c, pid, exe, ws, rows, sid, list(ops), out, monitor)
+            for h, (kind, j, op, why) in sorted(bad_hist.items()):
+                sid, ops = pending[h]
+                ops = list(ops)[:j + 1]
+                if kind == "viol":
+                    stats["violations"] += 1
+                    clause = why
+                    small = ddmin(ops, lambda t: (lambda r: r["first_viol"] is not None and r["first_viol"][2] == clause)(
+                        eval_history(c, exe, ws, rows, sid, t, monitor, "sh")))
+                    r = eval_history(c, exe, ws, rows, sid, small, monitor, "sh")
+                    c.report("%s:%s:%s" % (pid, op_kind(small[-1]), clause),
+                             "%s violated (%s) after %d calls on %s" % (what_prop, clause, len(small), sid),
+                             {"kind": "impl-violation", "schema": sid, "table": rows, "ops": small,
+                              "observation": r["first_viol"][3] if r["first_viol"] else None, "clause": clause})
+                else:
+                    stats["diffs"] += 1
+                    small = ddmin(ops, lambda t: eval_history(c, exe, ws, rows, sid, t, monitor, "sh")["first_diff"] is not None)
+                    r = eval_history(c, exe, ws, rows, sid, small, monitor, "sh")
+                    if r["first_viol"]:
+                        c.report("%s:%s:%s" % (pid, op_kind(small[r["first_viol"][0]]), r["first_viol"][2]),
+                                 "%s violated (%s) — found while shrinking a model/implementation disagreement" % (what_prop, r["first_viol"][2]),
+                                 {"kind": "impl-violation", "schema": sid, "table": rows, "ops": small, "clause": r["first_viol"][2],
+                                  "observation": r["first_viol"][3]})
+                    else:
+                        d = r["first_diff"]
+                        c.report("%s:correspondence:%s" % (pid, op_kind(d[1]) if d else "?"),
+                                 "session model and implementation disagree after `%s` (no property violation found on the shrunk history)" % (d[1] if d else "?"),
+                                 {"kind": "correspondence", "schema": sid, "table": rows, "ops": small,
+                                  "impl": d[2] if d else None, "model": d[3] if d else None,
+                                  "broken": "correspondence driver_session vs session_harness"}, no_input=True)
+            if crashed is None:
+                stats["histories"] += len(pending)
+                pending = []
+            else:
+                stats["histories"] += crashed
+                pending = pending[crashed + 1:]
+    stats["distinct_nontrivial"] = len(stats.pop("nontrivial"))
+    return stats
+
+
+def report_crash(c, pid, exe, ws, rows, sid, ops, out, monitor):
+    def crashes(t):
+        return eval_history(c, exe, ws, rows, sid, t, monitor, "cr")["rc"] != 0
+    small = ddmin(ops, crashes, budget=40) if crashes(ops) else ops
+    r = eval_history(c, exe, ws, rows, sid, small, monitor, "cr")
+    frame = "?"
+    m = re.search(r"#\d+ \S+ in (.+?) /\S*?/src/([\w/\.]+):(\d+)", r["log"] or out)
+    if m:
+        frame = "%s@%s" % (m.group(1).split("(")[0].replace(" ", ""), m.group(2))
+    c.report("%s:crash:%s" % (pid, frame), "API history crashes / trips a sanitizer in %s on %s" % (frame, sid),
+             {"kind": "impl-violation", "schema": sid, "table": rows, "ops": small, "log": (r["log"] or out)[-2500:]})
+
+
+def replay_history(c, r, monitor):
+    exe = build()
+    ws = make_workspace(os.path.join(c.work, "ws"), list(SCHEMAS))
+    if "ops" not in r:
+        print("replay: this file names a broken obligation, no concrete history:", r.get("what"))
+        return 1
+    rows = [tuple(x) for x in r["table"]]
+    res = eval_history(c, exe, ws, rows, r["schema"], r["ops"], monitor, "rp")
+    for l in res["impl"][-3:]:
+        print("impl :", l[:400])
+    print("rc=%d first_viol=%s first_diff=%s" % (res["rc"], res["first_viol"], res["first_diff"]))
+    return 1 if (res["rc"] != 0 or res["first_viol"] or res["first_diff"]) else 0
+
+
+def corpus_histories():
+    """regression corpus: corpus/session/*.script -> (sid, ops, rows)"""
+    out = []
+    d = os.path.join(vlib.CORPUS, "session")
+    for f in sorted(os.listdir(d)) if os.path.isdir(d) else []:
+        if not f.endswith(".script"):
+            continue
+        rows, ops, sid = [], [], None
+        for l in open(os.path.join(d, f)):
+            l = l.strip()
+            if not l or l.startswith("#") or l.startswith("env "):
+                continue
+            w = l.split(" ")
+            if w[0] == "table":
+                rows.append(tuple(unhex(x).decode("utf-8", "surrogateescape") for x in w[1:5]))
+            elif w[0] == "new":
+                continue
+            elif w[0] == "schema" and sid is None:
+                sid = w[1]
+            else:
+                ops.append(l)
+        out.append((sid or "vs_script", ops, rows, f))
+    return out
+
+
+def standard_histories(c, n_hist, n_ops, profile="mixed", schemas=None):
+    """corpus first, then seeded generation; returns (histories, rows_for)"""
+    rows_for, hs = {}, []
+    for k, (sid, ops, rows, f) in enumerate(corpus_histories()):
+        rows_for["c%d" % k] = rows
+        hs.append((sid, ops, "c%d" % k))
+    schemas = schemas or list(SCHEMAS)
+    for t in range(max(1, n_hist // 8)):
+        for sid in schemas:
+            tid = "g%d_%s" % (t, sid)
+            rows_for[tid] = gen_table(c.rng, SCHEMAS[sid]["alphabet"])
+    tids = [t for t in rows_for if t.startswith("g")]
+    for i in range(n_hist):
+        tid = tids[i % len(tids)]
+        sid = tid.split("_", 1)[1]
+        hs.append((sid, gen_history(c.rng, sid, SCHEMAS[sid], n_ops, profile), tid))
+    return hs, rows_for
